@@ -135,30 +135,61 @@ func EncodeStatic[T any](w io.Writer, vals []reflect.Value, cfg EncodeCfg) error
 
 // ReadAll reads a whole file into values of rt. Banks are left open so the
 // returned values stay valid. ptrTarget passes *T instead of T as "out".
+// DirtyValue, when set, supplies an arbitrary valid value of a record type. The readers below use it the way a
+// caller legitimately may: the target handed to ReadFile already holds data from earlier use, and the callback
+// overwrites the record it was given once it has taken its copy. Neither may show in any later record.
+var DirtyValue func(rt reflect.Type) (reflect.Value, bool)
+
+// Scribbles counts how often a record or target was overwritten with a dirty value (evidence).
+var Scribbles int64
+
+// Scribble overwrites the record/target at p with an arbitrary valid value of its type.
+func Scribble(rt reflect.Type, p unsafe.Pointer) {
+	if DirtyValue == nil || p == nil {
+		return
+	}
+	if d, ok := DirtyValue(rt); ok {
+		reflect.NewAt(rt, p).Elem().Set(d)
+		Scribbles++
+	}
+}
+
+// NewTarget returns a ReadFile target (value or pointer) that already holds arbitrary data.
+func NewTarget(rt reflect.Type, ptrTarget bool) any {
+	if ptrTarget {
+		t := reflect.New(rt)
+		Scribble(rt, t.UnsafePointer())
+		return t.Interface()
+	}
+	t := reflect.New(rt).Elem()
+	Scribble(rt, t.Addr().UnsafePointer())
+	return t.Interface()
+}
+
 func ReadAll(data []byte, rt reflect.Type, ptrTarget bool) ([]reflect.Value, error) {
 	var out []reflect.Value
-	var target any
-	if ptrTarget {
-		target = reflect.New(rt).Interface()
-	} else {
-		target = reflect.New(rt).Elem().Interface()
-	}
+	target := NewTarget(rt, ptrTarget)
 	err := avro.ReadFile(bytes.NewReader(data), target, func(val unsafe.Pointer, rb *avro.ResourceBank) error {
 		v := reflect.New(rt).Elem()
 		v.Set(reflect.NewAt(rt, val).Elem())
 		out = append(out, v)
+		Scribble(rt, val)
 		return nil
 	})
 	return out, err
 }
 
 // ReadAllFrom is ReadAll over an arbitrary avro.Reader.
+var readFromTick int
+
 func ReadAllFrom(r avro.Reader, rt reflect.Type) ([]reflect.Value, error) {
 	var out []reflect.Value
-	err := avro.ReadFile(r, reflect.New(rt).Elem().Interface(), func(val unsafe.Pointer, rb *avro.ResourceBank) error {
+	readFromTick++
+	err := avro.ReadFile(r, NewTarget(rt, readFromTick%2 == 0), func(val unsafe.Pointer, rb *avro.ResourceBank) error {
 		v := reflect.New(rt).Elem()
 		v.Set(reflect.NewAt(rt, val).Elem())
 		out = append(out, v)
+		Scribble(rt, val)
 		return nil
 	})
 	return out, err
@@ -172,8 +203,10 @@ type Session interface {
 
 type staticSession[T any] struct{ enc *avro.Encoder[T] }
 
-func (s staticSession[T]) Encode(v reflect.Value) error { return s.enc.Encode(v.Addr().Interface().(*T)) }
-func (s staticSession[T]) Flush() error                 { return s.enc.Flush() }
+func (s staticSession[T]) Encode(v reflect.Value) error {
+	return s.enc.Encode(v.Addr().Interface().(*T))
+}
+func (s staticSession[T]) Flush() error { return s.enc.Flush() }
 
 // NewStaticSession calls NewEncoderFor[T] (which writes the header to w).
 func NewStaticSession[T any](w io.Writer, comp avro.Compression, blockSize int) (Session, error) {
@@ -187,16 +220,12 @@ func NewStaticSession[T any](w io.Writer, comp avro.Compression, blockSize int) 
 // ReadEach reads a file and hands every record to fn inside the callback; the bank is closed
 // right after fn returns (the documented usage), so fn must not retain the value.
 func ReadEach(data []byte, rt reflect.Type, ptrTarget bool, fn func(k int, v reflect.Value) error) (int, error) {
-	var target any
-	if ptrTarget {
-		target = reflect.New(rt).Interface()
-	} else {
-		target = reflect.New(rt).Elem().Interface()
-	}
+	target := NewTarget(rt, ptrTarget)
 	k := 0
 	err := avro.ReadFile(bytes.NewReader(data), target, func(val unsafe.Pointer, rb *avro.ResourceBank) error {
 		err := fn(k, reflect.NewAt(rt, val).Elem())
 		k++
+		Scribble(rt, val)
 		rb.Close()
 		return err
 	})
